@@ -1,6 +1,6 @@
 (** C18 — machine-readable output modes are well-formed and faithful. *)
 From Coq Require Import List ZArith NArith Bool Lia.
-From AG Require Import Str F64 Value Json Expr Ops Pipeline Output Display Json_proofs Ops_proofs.
+From AG Require Import Str F64 Value Json Expr Ops Pipeline Output Display Json_proofs Ops_proofs Cli Cli_proofs.
 Import ListNotations.
 
 (** -o json: the text the serialiser writes for a tree parses back to exactly that tree,
@@ -70,5 +70,25 @@ Theorem C18_format_validation : forall s ps,
 Proof. intros; split; [apply fmt_parse_rejects_open_weak | apply fmt_parse_rejects_empty_field]. Qed.
 Print Assumptions C18_format_validation.
 
-(** unknown -o values, -o together with --format, empty format: clap / main() — checked on the real binary only *)
-Definition C18_cli_is_checked_by_the_harness : Prop := True.
+(** the output-mode selection of main(): exactly the documented -o values are accepted ... *)
+Theorem C18_cli_output_values : forall (p : str) (m : cli_mode),
+  parse_output p = Some m <->
+  (m = CLegacy /\ (p = lit "legacy" \/ p = lit "legacy=")) \/
+  (m = CJson /\ (p = lit "json" \/ p = lit "json=")) \/
+  (m = CLogfmt /\ (p = lit "logfmt" \/ p = lit "logfmt=")) \/
+  (exists v, v <> [] /\ m = CFormat v /\ p = lit "format=" ++ v).
+Proof. exact parse_output_exact. Qed.
+Print Assumptions C18_cli_output_values.
+
+(** ... -o together with --format is rejected, an empty format is rejected either way, no option is legacy *)
+Theorem C18_cli_exclusive : forall o f : str, select_mode (Some o) (Some f) = None.
+Proof. exact both_options_rejected. Qed.
+Print Assumptions C18_cli_exclusive.
+
+Theorem C18_cli_empty_format : select_mode None (Some []) = None /\ select_mode (Some (lit "format=")) None = None.
+Proof. exact empty_format_rejected_both_ways. Qed.
+Print Assumptions C18_cli_empty_format.
+
+Theorem C18_cli_default : select_mode None None = Some CLegacy.
+Proof. exact default_is_legacy. Qed.
+Print Assumptions C18_cli_default.
